@@ -66,6 +66,7 @@ POOL = [
     "list = (\"- first bullet of a long description that wraps\", \"xxxxxxxxxxxxxxxxxxxxxxxxxxxxxxxxxxxxxxxxxxxxxxxxxx- yyyyyyyyyyyyyyyyyyyyyyyyyyyyyyyyyyyyyyyy\")\n",
     "RADIANCE = (1.5 <W / m**2 / sr>, 2.25 <W / m**2 / sr>, 3.125 <W / m**2 / sr>, 4.0 <W / m**2 / sr>, 5.5 <W / m**2 / sr>, 6.75 <W / m**2 / sr>, 7.0 <W / m**2 / sr>, 8.5 <W / m**2 / sr>)\n"
     "SCALE = (10 <m / pixel>, 20 <m / pixel>, 30 <m / pixel>, 40 <m / pixel>, 50 <m / pixel>, 60 <m / pixel>)\n",
+    "TABBED = (100 <m\ts>, 101 <m\ts>, 102 <m\ts>, 103 <m\ts>, 104 <m\ts>, 105 <m\ts>, 106 <m\ts>, 107 <m\ts>, 108 <m\ts>, 109 <m\ts>, 110 <m\ts>, 111 <m\ts>)\n",
     "long = (\"alpha beta gamma delta epsilon zeta eta theta iota kappa\", \"lambda mu nu xi omicron pi rho sigma tau upsilon\", third-word)\n",
 ]
 
@@ -82,22 +83,24 @@ def corpus():
     return out
 
 
-def norm_canon(c, enc):
-    """Apply E's documented normalisations to a canonical tree."""
+def norm_canon(c, enc, tab=0):
+    """Apply E's documented normalisations to a canonical tree.  *tab*: the PDS3
+    encoder's tab_replace option (every TAB it writes becomes that many blanks)."""
     k = c[0]
     if k in ("mod", "grp", "obj"):
         items = []
         for name, v in c[1]:
             is_block = v[0] in ("grp", "obj")
             nn = name.upper() if (enc in ("ODL", "PDS3") and not is_block) else name
-            items.append((nn, norm_canon(v, enc)))
+            items.append((nn, norm_canon(v, enc, tab)))
         return (k, tuple(items))
     if k == "seq":
-        return ("seq", tuple(norm_canon(i, enc) for i in c[1]))
+        return ("seq", tuple(norm_canon(i, enc, tab) for i in c[1]))
     if k == "set":
-        return ("set", frozenset(norm_canon(i, enc) for i in c[1]))
+        return ("set", frozenset(norm_canon(i, enc, tab) for i in c[1]))
     if k == "q":
-        return ("q", norm_canon(c[1], enc), c[2])
+        return ("q", norm_canon(c[1], enc, tab),
+                c[2].replace("\t", " " * tab) if tab else c[2])
     return c
 
 
@@ -186,7 +189,7 @@ def run_case(case):
     except Exception as e:
         return ("fail", f"C07/{enc}/reload-fails/{type(e).__name__}",
                 f"{type(e).__name__}: {str(e)[:200]}; t1={t1!r}; t0={t0[:300]!r}")
-    exp = norm_canon(c1, enc)
+    exp = norm_canon(c1, enc, cfg.get("tab_replace", 4) if enc == "PDS3" else 0)
     c2 = nm.canon(m2)
     d = nm.diff(exp, c2, allow_g2o=(enc == "PDS3"))
     if d is not None:
